@@ -137,6 +137,29 @@ define_ops! {
     seq_json_dec = |s: BY| opt(serde_json::from_slice::<(Uint<B, L>, Uint<B, L>)>(&s));
     seq_rlp_dec = |s: BY| opt(rlp::decode_list::<Uint<B, L>>(&s).into_iter().map(Ok::<_, ()>).collect::<Result<Vec<_>, ()>>().map(|v| V::L(v.into_iter().map(|x| x.into_v()).collect())));
     seq_ssz_vec = |a: U, b: U| { let v = vec![a, b]; let e = ssz::Encode::as_ssz_bytes(&v); let d = <Vec<Uint<B, L>> as ssz::Decode>::from_ssz_bytes(&e).ok().map(|x| V::L(x.into_iter().map(|y| y.into_v()).collect())); (e, d) };
+    // ------------------------------------------------------------ containers (C16 / C17): the way the codecs are used in
+    // practice - Vec / array / Option / tuple of Uint - reaches the PROVIDED methods and bulk hooks of the codec traits
+    // (borsh vec_from_reader / array_from_reader, SCALE decode_into / skip / encoded_fixed_size, ssz fixed-length lists, ...)
+    c_borsh_enc = |v: US| (opt(borsh::to_vec(&v)), if v.len() == 2 { opt(borsh::to_vec(&[v[0], v[1]])) } else { V::None }, opt(borsh::to_vec(&v.first().copied())));
+    c_scale_enc = |v: US| (parity_scale_codec::Encode::encode(&v), if v.len() == 2 { V::some(parity_scale_codec::Encode::encode(&[v[0], v[1]]).into_v()) } else { V::None }, parity_scale_codec::Encode::encode(&v.first().copied()), if v.len() == 2 { V::some(parity_scale_codec::Encode::encode(&(v[0], v[1])).into_v()) } else { V::None }, parity_scale_codec::Encode::encoded_size(&v));
+    c_alloy_enc = |v: US| { let mut o = vec![0xEEu8]; alloy_rlp::Encodable::encode(&v, &mut o); (o, alloy_rlp::Encodable::length(&v)) };
+    c_json_enc = |v: US| (opt(serde_json::to_vec(&v)), opt(serde_json::to_vec(&v.first().copied())));
+    c_bincode_enc = |v: US| (opt(bincode::serialize(&v)), opt(bincode::serialize(&v.first().copied())));
+    c_borsh_vec_dec = |s: BY| opt(borsh::from_slice::<Vec<Uint<B, L>>>(&s).map(lst));
+    c_borsh_vec_reader_dec = |s: BY| opt(borsh::from_reader::<_, Vec<Uint<B, L>>>(&mut Env::new(s, 0, 5)).map(lst));
+    c_borsh_arr_dec = |s: BY| opt(borsh::from_slice::<[Uint<B, L>; 2]>(&s).map(|a| lst(a.to_vec())));
+    c_borsh_opt_dec = |s: BY| opt(borsh::from_slice::<Option<Uint<B, L>>>(&s).map(|a| lst(a.into_iter().collect())));
+    c_scale_vec_dec = |s: BY| scale_vec_by_bits(B, false, &s);
+    c_scale_arr_dec = |s: BY| opt(<[Uint<B, L>; 2] as parity_scale_codec::DecodeAll>::decode_all(&mut &s[..]).map(|a| lst(a.to_vec())));
+    c_scale_opt_dec = |s: BY| opt(<Option<Uint<B, L>> as parity_scale_codec::DecodeAll>::decode_all(&mut &s[..]).map(|a| lst(a.into_iter().collect())));
+    c_scale_tuple_dec = |s: BY| opt(<(Uint<B, L>, Uint<B, L>) as parity_scale_codec::DecodeAll>::decode_all(&mut &s[..]).map(|a| lst(vec![a.0, a.1])));
+    c_scale_vec_compact_dec = |s: BY| scale_vec_by_bits(B, true, &s);
+    c_alloy_vec_dec = |s: BY| { let mut b = &s[..]; let r = <Vec<Uint<B, L>> as alloy_rlp::Decodable>::decode(&mut b); (opt(r.map(lst)), s.len() - b.len()) };
+    c_ssz_vec_dec = |s: BY| opt(<Vec<Uint<B, L>> as ssz::Decode>::from_ssz_bytes(&s).map(lst));
+    c_json_vec_dec = |s: BY| opt(serde_json::from_slice::<Vec<Uint<B, L>>>(&s).map(lst));
+    c_json_opt_dec = |s: BY| opt(serde_json::from_slice::<Option<Uint<B, L>>>(&s).map(|a| lst(a.into_iter().collect())));
+    c_bincode_vec_dec = |s: BY| { use bincode::Options; opt(bincode::DefaultOptions::new().with_fixint_encoding().with_limit(1 << 20).deserialize::<Vec<Uint<B, L>>>(&s).map(lst)) };
+    c_bincode_opt_dec = |s: BY| { use bincode::Options; opt(bincode::DefaultOptions::new().with_fixint_encoding().with_limit(1 << 20).deserialize::<Option<Uint<B, L>>>(&s).map(|a| lst(a.into_iter().collect()))) };
     // ------------------------------------------------------------ decoders (C16 round trips, C17 totality)
     json_dec = |s: BY| opt(serde_json::from_slice::<Uint<B, L>>(&s));
     // the same text through the other routes into the visitor: a byte-at-a-time stream, and a parsed `Value`
@@ -190,6 +213,260 @@ fn vu(l: &Limbs) -> V {
 }
 fn by(b: Vec<u8>) -> V {
     V::Bytes(b)
+}
+
+/// `got` must be None, or Some(v) with v the denoted value (< 2^bits) [and consumed = `used`]
+/// parity-scale-codec refuses at COMPILE time to decode a `Vec<T>` whose items are larger than its preallocation chunk
+/// (a const assertion), so `Vec<Uint<524352, _>>` cannot even be instantiated: the SCALE list decoders are reached through
+/// a non-generic table over the ordinary widths instead of through the width-generic shim.
+fn scale_vec_plain<const B: usize, const L: usize>(s: &[u8]) -> V {
+    opt(<Vec<Uint<B, L>> as parity_scale_codec::DecodeAll>::decode_all(&mut &s[..]).map(lst))
+}
+fn scale_vec_compact<const B: usize, const L: usize>(s: &[u8]) -> V {
+    opt(<Vec<CompactUint<B, L>> as parity_scale_codec::DecodeAll>::decode_all(&mut &s[..]).map(|a| lst(a.into_iter().map(|x| x.0).collect())))
+}
+macro_rules! scale_vec_table {
+    ($($w:literal),*) => {
+        fn scale_vec_by_bits(bits: usize, compact: bool, s: &[u8]) -> V {
+            match bits {
+                $( $w => if compact { scale_vec_compact::<$w, { ($w + 63) / 64 }>(s) } else { scale_vec_plain::<$w, { ($w + 63) / 64 }>(s) }, )*
+                _ => V::None,
+            }
+        }
+    };
+}
+scale_vec_table!(0, 1, 7, 8, 9, 16, 60, 63, 64, 65, 120, 127, 128, 129, 160, 250, 255, 256, 257, 384, 440, 441, 448, 512, 528, 535, 1024);
+
+fn lst<const B: usize, const L: usize>(v: Vec<Uint<B, L>>) -> V {
+    V::L(v.into_iter().map(|x| x.into_v()).collect())
+}
+
+// ---------------------------------------------------------------- containers: reference encodings and lenient readers
+
+fn rlp_list(payload: Vec<u8>) -> Vec<u8> {
+    let mut o = if payload.len() < 56 {
+        vec![0xc0 + payload.len() as u8]
+    } else {
+        let l = rc::be_min(&BigUint::from(payload.len()));
+        let mut o = vec![0xf7 + l.len() as u8];
+        o.extend(l);
+        o
+    };
+    o.extend(payload);
+    o
+}
+/// (container kind, reference encoding of the list) for every container decoder
+fn container_ref(kind: Op, vals: &[BigUint], nb: usize) -> Option<Vec<u8>> {
+    use Op::*;
+    let cat = |f: &dyn Fn(&BigUint) -> Vec<u8>| -> Vec<u8> { vals.iter().flat_map(|v| f(v)).collect() };
+    let le = |v: &BigUint| rc::fixed_le(v, nb);
+    let sc = |v: &BigUint| rc::scale_bytes(&rc::fixed_le(v, nb));
+    let fits = vals.iter().all(|v| v.bits() as usize <= 8 * nb);
+    if !fits && !matches!(kind, c_alloy_vec_dec | c_json_vec_dec | c_json_opt_dec | c_scale_vec_compact_dec) {
+        return None; // the fixed-width item formats cannot even carry such a value
+    }
+    if kind == c_scale_vec_compact_dec && vals.iter().any(|v| v.bits() >= 536) {
+        return None;
+    }
+    Some(match kind {
+        c_borsh_vec_dec | c_borsh_vec_reader_dec => {
+            let mut o = (vals.len() as u32).to_le_bytes().to_vec();
+            o.extend(cat(&le));
+            o
+        }
+        c_borsh_arr_dec if vals.len() == 2 => cat(&le),
+        c_borsh_opt_dec if vals.len() <= 1 => {
+            let mut o = vec![vals.len() as u8];
+            o.extend(cat(&le));
+            o
+        }
+        c_scale_vec_dec => {
+            let mut o = rc::compact(&BigUint::from(vals.len()));
+            o.extend(cat(&sc));
+            o
+        }
+        c_scale_vec_compact_dec => {
+            let mut o = rc::compact(&BigUint::from(vals.len()));
+            o.extend(cat(&|v| rc::compact(v)));
+            o
+        }
+        c_scale_arr_dec | c_scale_tuple_dec if vals.len() == 2 => cat(&sc),
+        c_scale_opt_dec if vals.len() <= 1 => {
+            let mut o = vec![vals.len() as u8];
+            o.extend(cat(&sc));
+            o
+        }
+        c_alloy_vec_dec => rlp_list(cat(&|v| rc::rlp(v))),
+        c_ssz_vec_dec => cat(&le),
+        c_json_vec_dec => format!("[{}]", vals.iter().map(rc::json_quantity).collect::<Vec<_>>().join(",")).into_bytes(),
+        c_json_opt_dec if vals.len() <= 1 => vals.first().map(rc::json_quantity).unwrap_or("null".into()).into_bytes(),
+        c_bincode_vec_dec => {
+            let mut o = (vals.len() as u64).to_le_bytes().to_vec();
+            o.extend(cat(&|v| rc::bincode(v, nb)));
+            o
+        }
+        c_bincode_opt_dec if vals.len() <= 1 => {
+            let mut o = vec![vals.len() as u8];
+            o.extend(cat(&|v| rc::bincode(v, nb)));
+            o
+        }
+        _ => return None,
+    })
+}
+/// What the bytes denote as a list under the container format, read leniently item by item (the integers are whatever the
+/// item bytes denote); None = structurally malformed / truncated / trailing bytes. Err = no claim.
+fn container_denotes(kind: Op, s: &[u8], nb: usize) -> Result<Option<Vec<BigUint>>, ()> {
+    use Op::*;
+    let fixed = |mut rest: &[u8], n: usize| -> Option<Vec<BigUint>> {
+        if nb == 0 || rest.len() != n.checked_mul(nb)? {
+            return None;
+        }
+        let mut o = vec![];
+        while !rest.is_empty() {
+            o.push(BigUint::from_bytes_le(&rest[..nb]));
+            rest = &rest[nb..];
+        }
+        Some(o)
+    };
+    let items = |mut rest: &[u8], n: Option<usize>, f: &dyn Fn(&[u8]) -> Option<(BigUint, usize)>| -> Option<Vec<BigUint>> {
+        let mut o = vec![];
+        loop {
+            match n {
+                Some(n) if o.len() == n => break,
+                None if rest.is_empty() => break,
+                _ => {}
+            }
+            let (v, used) = f(rest)?;
+            o.push(v);
+            rest = &rest[used..];
+        }
+        if rest.is_empty() { Some(o) } else { None }
+    };
+    let scale_item = |b: &[u8]| rc::scale_bytes_denotes(b).map(|x| (x.0, x.2));
+    let small = |v: &BigUint| -> Option<usize> { if v.bits() <= 32 { Some(v.iter_u64_digits().next().unwrap_or(0) as usize) } else { None } };
+    Ok(match kind {
+        c_borsh_vec_dec | c_borsh_vec_reader_dec => {
+            if s.len() < 4 {
+                None
+            } else {
+                fixed(&s[4..], u32::from_le_bytes(s[..4].try_into().unwrap()) as usize)
+            }
+        }
+        c_borsh_arr_dec => fixed(s, 2),
+        c_borsh_opt_dec => match s.first() {
+            Some(0) if s.len() == 1 => Some(vec![]),
+            Some(1) => fixed(&s[1..], 1),
+            _ => None,
+        },
+        c_scale_vec_dec | c_scale_vec_compact_dec => match rc::compact_denotes(s) {
+            Some((n, used)) => match small(&n) {
+                Some(n) => items(&s[used..], Some(n), if kind == c_scale_vec_dec { &scale_item } else { &|b| rc::compact_denotes(b) }),
+                None => None,
+            },
+            None => None,
+        },
+        c_scale_arr_dec | c_scale_tuple_dec => items(s, Some(2), &scale_item),
+        c_scale_opt_dec => match s.first() {
+            Some(0) if s.len() == 1 => Some(vec![]),
+            Some(1) => items(&s[1..], Some(1), &scale_item),
+            _ => None,
+        },
+        c_alloy_vec_dec => {
+            // canonical list header, then canonical string items filling the payload exactly
+            let h = match s.first() {
+                Some(h) => *h,
+                None => return Ok(None),
+            };
+            let (start, len) = if (0xc0..=0xf7).contains(&h) {
+                (1usize, (h - 0xc0) as usize)
+            } else if h >= 0xf8 {
+                let ll = (h - 0xf7) as usize;
+                if s.len() < 1 + ll {
+                    return Ok(None);
+                }
+                if s[1] == 0 {
+                    return Err(()); // non-canonical list header: the framing is alloy-rlp's business, no claim
+                }
+                let mut len = 0usize;
+                for &x in &s[1..1 + ll] {
+                    len = match len.checked_mul(256).and_then(|l| l.checked_add(x as usize)) {
+                        Some(l) => l,
+                        None => return Ok(None),
+                    };
+                }
+                if len < 56 {
+                    return Err(());
+                }
+                (1 + ll, len)
+            } else {
+                return Ok(None);
+            };
+            let Some(end) = start.checked_add(len) else { return Ok(None) };
+            if s.len() != end {
+                // the decoder reports what it consumed; trailing bytes are the caller's - compare on the exact list only
+                return if s.len() > end { Err(()) } else { Ok(None) };
+            }
+            items(&s[start..], None, &|b| rc::rlp_denotes(b).filter(|(v, used)| rc::rlp(v) == b[..*used]))
+        }
+        c_ssz_vec_dec => {
+            if nb == 0 || s.len() % nb != 0 {
+                None
+            } else {
+                fixed(s, s.len() / nb)
+            }
+        }
+        c_bincode_vec_dec => {
+            if s.len() < 8 {
+                None
+            } else {
+                let n = u64::from_le_bytes(s[..8].try_into().unwrap());
+                if n > s.len() as u64 {
+                    None
+                } else {
+                    items(&s[8..], Some(n as usize), &|b| rc::bincode_denotes(b).map(|(v, l)| (v, 8 + l)))
+                }
+            }
+        }
+        c_bincode_opt_dec => match s.first() {
+            Some(0) if s.len() == 1 => Some(vec![]),
+            Some(1) => items(&s[1..], Some(1), &|b| rc::bincode_denotes(b).map(|(v, l)| (v, 8 + l))),
+            _ => None,
+        },
+        _ => return Err(()),
+    })
+}
+const CONTAINER_DECODERS: &[Op] = &[
+    Op::c_borsh_vec_dec, Op::c_borsh_vec_reader_dec, Op::c_borsh_arr_dec, Op::c_borsh_opt_dec, Op::c_scale_vec_dec, Op::c_scale_arr_dec, Op::c_scale_opt_dec, Op::c_scale_tuple_dec,
+    Op::c_scale_vec_compact_dec, Op::c_alloy_vec_dec, Op::c_ssz_vec_dec, Op::c_json_vec_dec, Op::c_json_opt_dec, Op::c_bincode_vec_dec, Op::c_bincode_opt_dec,
+];
+fn container_decode_all(l: &mut Local, bits: usize, input: &[u8]) {
+    let args = [V::Bytes(input.to_vec())];
+    l.states(1);
+    for &op in CONTAINER_DECODERS {
+        if op == Op::c_scale_vec_compact_dec && bits >= 536 {
+            continue;
+        }
+        exec(l, bits, op, &args);
+    }
+}
+/// C16 for containers: every encoder on the list = reference container encoding; every decoder on the reference encoding
+/// returns the list.
+fn container_roundtrips(l: &mut Local, bits: usize, list: &[BigUint]) {
+    let nb = (bits + 7) / 8;
+    let lv = V::L(list.iter().map(|v| u(v, bits)).collect());
+    for op in [Op::c_borsh_enc, Op::c_scale_enc, Op::c_alloy_enc, Op::c_json_enc, Op::c_bincode_enc] {
+        exec(l, bits, op, &[lv.clone()]);
+    }
+    for &op in CONTAINER_DECODERS {
+        if op == Op::c_scale_vec_compact_dec && bits >= 536 {
+            continue;
+        }
+        let Some(e) = container_ref(op, list, nb) else { continue };
+        let args = [V::Bytes(e.clone())];
+        let got = l.guard(op.name(), op.src(), bits, &args, || dispatch(bits, op, &args));
+        let want = if op == Op::c_alloy_vec_dec { V::T(vec![V::some(lv.clone()), V::n(e.len())]) } else { V::some(lv.clone()) };
+        l.record(op.name(), op.src(), bits, &args, got, is(want).nt(true));
+    }
 }
 
 /// `got` must be None, or Some(v) with v the denoted value (< 2^bits) [and consumed = `used`]
@@ -465,6 +742,88 @@ fn model(bits: usize, op: Op, args: &[V]) -> Expect {
             }
             .nt(true)
         }
+        c_borsh_enc | c_scale_enc | c_alloy_enc | c_json_enc | c_bincode_enc => {
+            let V::L(items) = &args[0] else { return dont_care() };
+            let vals: Vec<BigUint> = items.iter().map(|x| big(x.limbs())).collect();
+            let first: Vec<BigUint> = vals.iter().take(1).cloned().collect();
+            let two = vals.len() == 2;
+            let r = |k: Op, v: &[BigUint]| container_ref(k, v, nb).expect("harness: container reference");
+            let so = |b: Vec<u8>| V::some(by(b));
+            match op {
+                c_borsh_enc => is(V::T(vec![so(r(c_borsh_vec_dec, &vals)), if two { so(r(c_borsh_arr_dec, &vals)) } else { V::None }, so(r(c_borsh_opt_dec, &first))])),
+                c_scale_enc => {
+                    let e = r(c_scale_vec_dec, &vals);
+                    let n = e.len();
+                    is(V::T(vec![by(e), if two { so(r(c_scale_arr_dec, &vals)) } else { V::None }, by(r(c_scale_opt_dec, &first)), if two { so(r(c_scale_tuple_dec, &vals)) } else { V::None }, V::n(n)]))
+                }
+                c_alloy_enc => {
+                    let e = r(c_alloy_vec_dec, &vals);
+                    let n = e.len();
+                    let mut o = vec![0xEEu8];
+                    o.extend(e);
+                    is(V::T(vec![by(o), V::n(n)]))
+                }
+                c_json_enc => is(V::T(vec![so(r(c_json_vec_dec, &vals)), so(r(c_json_opt_dec, &first))])),
+                _ => is(V::T(vec![so(r(c_bincode_vec_dec, &vals)), so(r(c_bincode_opt_dec, &first))])),
+            }
+            .nt(true)
+        }
+        c_json_vec_dec | c_json_opt_dec => {
+            // structure through serde_json's own `Value` (trusted for tokenisation), integers through the reference reader
+            let no_panic = || pred("anything but a panic (no claim on this text)", |g| *g != V::Panic).nt(true);
+            let val: serde_json::Value = match serde_json::from_slice(s()) {
+                Ok(v) => v,
+                Err(_) => return is(V::None).nt(true),
+            };
+            let items: Vec<serde_json::Value> = match (op, val) {
+                (c_json_vec_dec, serde_json::Value::Array(a)) => a,
+                (c_json_opt_dec, serde_json::Value::Null) => vec![],
+                (c_json_opt_dec, v @ serde_json::Value::String(_)) => vec![v],
+                _ => return no_panic(),
+            };
+            let mut out = vec![];
+            for it in &items {
+                let serde_json::Value::String(t) = it else { return no_panic() };
+                if t.chars().any(|c| c == '"' || c == '\\' || (c as u32) < 0x20) {
+                    return no_panic();
+                }
+                match json_denotes(format!("\"{t}\"").as_bytes()) {
+                    Ok(Some(v)) => out.push(v),
+                    Ok(None) => return no_panic(),
+                    Err(()) => return is(V::None).nt(true),
+                }
+            }
+            let m = pow2(bits);
+            if out.iter().all(|v| v < &m) {
+                any_of(vec![V::None, V::some(V::L(out.iter().map(|v| u(v, bits)).collect()))]).nt(true)
+            } else {
+                is(V::None).nt(true)
+            }
+        }
+        c_borsh_vec_dec | c_borsh_vec_reader_dec | c_borsh_arr_dec | c_borsh_opt_dec | c_scale_vec_dec | c_scale_arr_dec | c_scale_opt_dec | c_scale_tuple_dec | c_scale_vec_compact_dec | c_alloy_vec_dec | c_ssz_vec_dec
+        | c_bincode_vec_dec | c_bincode_opt_dec => {
+            let m = pow2(bits);
+            let cursor = op == c_alloy_vec_dec;
+            let rej = move || if cursor { pred("(None, _)", |g| matches!(g, V::T(t) if t.len() == 2 && t[0] == V::None)) } else { is(V::None) };
+            if bits == 0 {
+                // lists of zero-sized items: the codecs differ (borsh refuses them, ssz cannot count them): no claim beyond no panic
+                return pred("anything but a panic (zero-sized items)", |g| *g != V::Panic).nt(true);
+            }
+            match container_denotes(op, s(), nb) {
+                Err(()) => pred("anything but a panic (trailing bytes after the list: no claim)", |g| *g != V::Panic).nt(true),
+                Ok(Some(list)) if list.iter().all(|v| v < &m) => {
+                    let lv = V::some(V::L(list.iter().map(|v| u(v, bits)).collect()));
+                    if cursor {
+                        let n = s().len();
+                        pred(&format!("(None, _) or ({lv:?}, {n})"), move |g| matches!(g, V::T(t) if t.len() == 2 && (t[0] == V::None || (t[0] == lv && t[1] == V::n(n)))))
+                    } else {
+                        any_of(vec![V::None, lv])
+                    }
+                    .nt(true)
+                }
+                _ => rej().nt(true),
+            }
+        }
         seq_alloy_dec | seq_fastrlp04_dec | seq_scale_dec | seq_compact_dec | seq_borsh_dec | seq_bincode_dec | seq_json_dec | seq_rlp_dec => dont_care(),
         // ---------------------------------------------------------------- decoders
         json_dec | json_bits_dec | json_reader_dec | json_value_dec => from3(json_denotes(s()), bits, true),
@@ -669,6 +1028,14 @@ fn c16(r: &Runner) {
             // two values back to back: this value and its successor in the universe
             let w = big(&vals[(i + 1) % vals.len()]);
             let bw = vu(&vals[(i + 1) % vals.len()]);
+            if bits > 0 {
+                if i == 0 {
+                    container_roundtrips(l, bits, &[]);
+                }
+                container_roundtrips(l, bits, &[v.clone()]);
+                container_roundtrips(l, bits, &[v.clone(), w.clone()]);
+                container_roundtrips(l, bits, &[w.clone(), v.clone(), w.clone()]);
+            }
             for op in [Op::seq_alloy, Op::seq_fastrlp03, Op::seq_fastrlp04, Op::seq_rlp, Op::seq_scale, Op::seq_ssz, Op::seq_borsh, Op::seq_bincode, Op::seq_json, Op::seq_der, Op::seq_ssz_vec] {
                 exec(l, bits, op, &[a.clone(), bw.clone()]);
             }
@@ -1042,6 +1409,59 @@ fn c17(r: &Runner) {
                 decode_all(l, bits, inp);
             }
         });
+        // containers on untrusted input: reference encodings of [], [x], [x, y] (x, y incl. out-of-range values) in every
+        // container format with every single-field mutation, and hostile length prefixes in front of 0..2 items; every
+        // input goes to EVERY container decoder
+        if bits > 0 {
+            let nbb = (bits + 7) / 8;
+            let cvals: Vec<BigUint> = {
+                let mut v: Vec<BigUint> = vals.iter().step_by((vals.len() / if r.is_thorough() { 60 } else { 20 }).max(1)).cloned().collect();
+                v.extend([BigUint::zero(), &m - 1u32, m.clone(), &m + 1u32, pow2(8 * nbb) - 1u32, pow2(8 * nbb)]);
+                v.sort();
+                v.dedup();
+                v
+            };
+            r.universe(&format!("containers (Vec / [_; 2] / Option / tuple): reference encodings of lists over {} values x single-field mutations + hostile length prefixes -> every container decoder", cvals.len()), bits, cvals.len(), |i, l| {
+                let x = &cvals[i];
+                let y = &cvals[(i * 7 + 3) % cvals.len()];
+                let mut inputs: Vec<Vec<u8>> = vec![];
+                for list in [vec![], vec![x.clone()], vec![x.clone(), y.clone()], vec![y.clone(), x.clone(), y.clone()]] {
+                    for &k in CONTAINER_DECODERS {
+                        if let Some(e) = container_ref(k, &list, nbb) {
+                            if list.len() <= 2 {
+                                inputs.extend(mutations(&e));
+                            }
+                            inputs.push(e);
+                        }
+                    }
+                }
+                if x.bits() as usize <= 8 * nbb {
+                    let item = rc::fixed_le(x, nbb);
+                    let per = (1u64 << 32) / nbb as u64;
+                    for n in [0u64, 1, 2, 3, 255, 256, 1 << 16, 1 << 24, 1 << 27, 1 << 28, 1 << 29, 1 << 30, 1 << 31, u32::MAX as u64, per - 1, per, per + 1, 2 * per, 2 * per + 1, 1 << 32, (1 << 32) + 1, 1 << 56, u64::MAX] {
+                        for k in 0..3usize {
+                            let body: Vec<u8> = (0..k).flat_map(|_| item.clone()).collect();
+                            if n <= u32::MAX as u64 {
+                                let mut e = (n as u32).to_le_bytes().to_vec();
+                                e.extend(&body);
+                                inputs.push(e);
+                                let mut e = rc::compact(&BigUint::from(n));
+                                e.extend((0..k).flat_map(|_| rc::scale_bytes(&item)));
+                                inputs.push(e);
+                            }
+                            let mut e = n.to_le_bytes().to_vec();
+                            e.extend((0..k).flat_map(|_| rc::bincode(x, nbb)));
+                            inputs.push(e);
+                        }
+                    }
+                }
+                inputs.sort();
+                inputs.dedup();
+                for inp in &inputs {
+                    container_decode_all(l, bits, inp);
+                }
+            });
+        }
         // postgres header fields
         let hv: [i16; 9] = [0, 1, 2, -1, 0x7fff, -0x8000, 0x4000, 9999, 10000];
         let mut pg: Vec<(usize, Vec<u8>)> = vec![];
